@@ -98,19 +98,47 @@ def check(run):
         if not ok:
             run.violation(r2, "generator::add_forward_declaration|%s" % need, ("the filter `%s` is missing" % what) if need not in seen else
                           "the qualified-name filter uses the prefixes %s, expected exactly 'std::' and 'yorel::' (with the scope operator: 'stdx::T' is a user class)" % sorted(lits), (f["file"], lp["l"]))
-    # the name pattern: a qualified identifier, optionally followed by '<'
+    # the name pattern: a qualified identifier, optionally followed by '<'. The literal is interpreted (it is a constant of the source):
+    # over a table of type-name texts, every match must be a WHOLE word of the text - same start, same extent as a maximal run of
+    # identifier characters joined by `::` - with the template bracket in group 2, and every word that starts with a letter must be
+    # matched. A pattern that can start in the middle of a word declares its tail (`3ul` -> `class ul;`, `_Impl` -> `class Impl;`).
+    import re as _re
     rx = [x["s"] for x in astq.walk(f["body"]) if x.get("k") == "StringLiteral" and "s" in x and "\\w" in x["s"]]
-    okr = len(rx) == 1 and rx[0].replace(" ", "") == r"(\w+(?:::\w+)*)(*<)?".replace(" ", "")
-    if not okr:
-        run.broken.append("add_forward_declaration: the name pattern is %s; this rule only knows `(\\w+(?:::\\w+)*)( *<)?` (group 1 the qualified name, group 2 the template bracket)" % rx)
+    if len(rx) != 1 or not _re.fullmatch(r"(?:\\w|\[[A-Za-z0-9_\-]+\]|\(\?:|[()*+?:< |])+", rx[0]):
+        run.broken.append("add_forward_declaration: the name pattern %s is not in the subset this rule interprets (\\w, simple classes, groups, * + ?, ':', '<', ' ')" % rx)
     else:
-        run.instance(r2, "words are matched as qualified identifiers with an optional template bracket (group 2)", (f["file"], f["line"]), ok=True)
-        # this pattern also matches tokens that start with a digit (`3ul`, the literal of a non-type template argument): they are
-        # dropped by the test on the first character
-        okd = "non-identifier" in seen
-        run.instance(r2, "a match that does not start with a letter (a numeric literal such as `3ul`) is skipped", (f["file"], lp["l"]), ok=okd)
-        if not okd:
-            run.violation(r2, "generator::add_forward_declaration|non-identifier", "with the pattern `\\w+...` a numeric literal is a match; the test on its first character is missing: `class 3ul;` would be declared", (f["file"], lp["l"]))
+        ref = _re.compile(r"(\w+(?:::\w+)*)( *<)?")
+        try:
+            cand = _re.compile(rx[0])
+        except _re.error as e:
+            cand = None
+            run.broken.append("add_forward_declaration: the name pattern %s does not translate: %s" % (rx[0], e))
+        samples = ["Matrix<3ul, dense>", "ns1::ns2::T<a::B, 12>", "const _Impl::row&", "std::pair<int, x9::y_z <q>>", "a", "A1::b2 <C3>", "vec<10, 0x1f, u8>", "__m::n"]
+        if cand is not None and cand.groups >= 2:
+            bad = None
+            matches_nonletter = False
+            for sm in samples:
+                words = {m.start(1): (m.group(1), bool(m.group(2))) for m in ref.finditer(sm)}
+                got = {m.start(1): (m.group(1), bool(m.group(2))) for m in cand.finditer(sm) if m.group(1)}
+                for pos, w in got.items():
+                    if words.get(pos) != w:
+                        bad = bad or (sm, "matches `%s`%s at %d, which is not a whole word of the text" % (w[0], " <" if w[1] else "", pos))
+                    elif not w[0][0].isalpha():
+                        matches_nonletter = True
+                for pos, w in words.items():
+                    if w[0][0].isalpha() and pos not in got:
+                        bad = bad or (sm, "does not match the name `%s`" % w[0])
+            run.instance(r2, "words are matched whole, as qualified identifiers with an optional template bracket in group 2 (pattern interpreted over %d sample texts)" % len(samples), (f["file"], f["line"]), ok=bad is None)
+            if bad:
+                run.violation(r2, "generator::add_forward_declaration|name-pattern", "on `%s` the name pattern `%s` %s" % (bad[0], rx[0], bad[1]), (f["file"], f["line"]))
+            # a pattern that also matches tokens starting with a digit (`3ul`, the literal of a non-type template argument) needs the
+            # test on the first character
+            okd = (not matches_nonletter) or "non-identifier" in seen
+            run.instance(r2, "a match that does not start with a letter (a numeric literal such as `3ul`) is skipped", (f["file"], lp["l"]), ok=okd)
+            if not okd:
+                run.violation(r2, "generator::add_forward_declaration|non-identifier", "with the pattern `%s` a numeric literal is a match; the test on its first character is missing: `class 3ul;` would be declared" % rx[0], (f["file"], lp["l"]))
+        elif cand is not None:
+            run.broken.append("add_forward_declaration: the name pattern %s has fewer than two groups" % rx[0])
     # ---- starts_with
     sw = [g for g in ast.funcs if g.get("body") and g["name"].endswith("detail::starts_with")]
     if not sw:
